@@ -17,9 +17,9 @@
 
 #define sexp_hash_resize_check(n, len) (((n)*3) > ((len)>>2))
 
-static sexp_uint_t string_hash (char *str, sexp_uint_t bound) {
+static sexp_uint_t string_hash (char *str, sexp_uint_t len, sexp_uint_t bound) {
   sexp_uint_t acc = FNV_OFFSET_BASIS;
-  while (*str) {acc *= FNV_PRIME; acc ^= *str++;}
+  while (len-- > 0) {acc *= FNV_PRIME; acc ^= *str++;}
   return acc % bound;
 }
 
@@ -29,12 +29,13 @@ sexp sexp_string_hash (sexp ctx, sexp self, sexp_sint_t n, sexp str, sexp bound)
   else if (! sexp_fixnump(bound))
     return sexp_type_exception(ctx, self, SEXP_FIXNUM, bound);
   return sexp_make_fixnum(string_hash(sexp_string_data(str),
+                                      sexp_string_size(str),
                                       sexp_unbox_fixnum(bound)));
 }
 
-static sexp_uint_t string_ci_hash (char *str, sexp_uint_t bound) {
+static sexp_uint_t string_ci_hash (char *str, sexp_uint_t len, sexp_uint_t bound) {
   sexp_uint_t acc = FNV_OFFSET_BASIS;
-  while (*str) {acc *= FNV_PRIME; acc ^= sexp_tolower((unsigned char)*str++);}
+  while (len-- > 0) {acc *= FNV_PRIME; acc ^= sexp_tolower((unsigned char)*str++);}
   return acc % bound;
 }
 
@@ -44,6 +45,7 @@ sexp sexp_string_ci_hash (sexp ctx, sexp self, sexp_sint_t n, sexp str, sexp bou
   else if (! sexp_fixnump(bound))
     return sexp_type_exception(ctx, self, SEXP_FIXNUM, bound);
   return sexp_make_fixnum(string_ci_hash(sexp_string_data(str),
+                                         sexp_string_size(str),
                                          sexp_unbox_fixnum(bound)));
 }
 
@@ -66,8 +68,29 @@ static sexp_uint_t hash_one (sexp ctx, sexp obj, sexp_uint_t bound, sexp_sint_t 
         p0 = ((char*)obj) + offsetof(struct sexp_struct, value);
         /* if the field_base is 0, skip to the value */
         if ((sexp)p == obj) p=(sexp*)p0;
+#if SEXP_USE_BIGNUMS
+        /* hash only the sign and the significant words of a bignum: the */
+        /* allocated length may include insignificant leading zero words */
+        if (sexp_bignump(obj)) {
+          acc *= FNV_PRIME; acc ^= (unsigned char)sexp_bignum_sign(obj);
+          right_size = sexp_bignum_hi(obj) * sizeof(sexp_uint_t);
+          p_right = (char*)sexp_bignum_data(obj);
+          for (i=0; i<right_size; i++) {acc *= FNV_PRIME; acc ^= p_right[i];}
+          return (bound ? acc % bound : acc);
+        }
+#endif
+#if !SEXP_USE_PACKED_STRINGS
+        /* hash the characters of a string, not its byte store (which may */
+        /* be shared, with a non-zero offset) */
+        if (sexp_stringp(obj)) {
+          right_size = sexp_string_size(obj);
+          p_right = sexp_string_data(obj);
+          for (i=0; i<right_size; i++) {acc *= FNV_PRIME; acc ^= p_right[i];}
+          return (bound ? acc % bound : acc);
+        }
+#endif
         /* hash uvector data (otherwise strings all hash to the same value) */
-        if (sexp_bytesp(obj) || sexp_uvectorp(obj) || sexp_bignump(obj)) {
+        if (sexp_bytesp(obj) || sexp_uvectorp(obj)) {
           p_right = ((char*)p + sexp_type_num_slots_of_object(t, obj)*sizeof(sexp));
           right_size = ((char*)obj + sexp_type_size_of_object(t, obj)) - p_right;
           for (i=0; i<right_size; i++) {acc *= FNV_PRIME; acc ^= p_right[i];}
